@@ -85,6 +85,9 @@ def Pkt.nonce : Pkt → Nat
 structure Contact where
   na : NA
   record : Option Rec
+  /-- the contact's public key supports the key agreement (`false`: an Ed25519 identity key, for
+  which `Session::encrypt_with_header` fails with `KeyTypeNotSupported`) -/
+  keyOk : Bool := true
   deriving Repr, DecidableEq, Inhabited
 
 inductive Err where
@@ -477,6 +480,11 @@ def handleChallenge (c : Cfg) (src : Addr) (nonce cd enrSeq : Nat) : M Unit := d
       activeInsert c call0
       return ()
     if call0.hsSent then
+      removeExpected src
+      failRequest c call0 .invalidRemotePacket true
+      return ()
+    if !call0.contact.keyOk then
+      -- `Session::encrypt_with_header` fails: "Could not generate a session"
       removeExpected src
       failRequest c call0 .invalidRemotePacket true
       return ()
